@@ -456,16 +456,21 @@ theorem T_C20_frame_add_beam (tol : Rat) (c1 c2 : Int) :
 
 /-! ### slices of a stack -/
 
-/-- `Stack.get_slice(axis, index)` on a non-empty stack: rejected iff the axis is not 0, 1, 2 or the index is not
-    one of 0 … (number of slices along that axis − 1) -/
 theorem T_C20_stack_slice (tol : Rat) (axis idx : Int) (n0 n1 n2 : Nat) (h1 : 0 < n1) (h2 : 0 < n2) :
     (run tol (.stackSlice axis idx n0 n1 n2)).isReject = true ↔
       ¬ (0 ≤ axis ∧ axis ≤ 2 ∧ 0 ≤ idx ∧
           idx < (if axis = 0 then (n0 : Int) else if axis = 1 then (n1 : Int) else (n2 : Int))) := by
-  simp only [run, checks_isReject, List.any_cons, List.any_nil, Bool.or_false, Bool.or_eq_true,
-    Bool.not_eq_true', Bool.or_eq_false_iff, beq_eq_false_iff_ne, Bool.and_eq_true, beq_iff_eq,
-    decide_eq_true_eq]
-  split_ifs with ha hb <;> omega
+  by_cases ha : axis = 0
+  · subst ha; simp [run, checks_isReject, slicesAlong]; omega
+  · by_cases hb : axis = 1
+    · subst hb; simp [run, checks_isReject, slicesAlong]; omega
+    · simp [run, checks_isReject, slicesAlong, ha, hb]; omega
+
+/-- the repaired `Stack.get_slice` gives an index beyond the last slice the class it gives a negative one -/
+theorem T_C20_stack_slice_same_class (tol : Rat) (axis idx : Int) (n0 n1 n2 : Nat)
+    (ha : axis = 0 ∨ axis = 1 ∨ axis = 2) (h : idx < 0 ∨ slicesAlong axis n0 n1 n2 ≤ idx) :
+    run tol (.stackSlice axis idx n0 n1 n2) = .reject "ValueError" := by
+  rcases ha with rfl | rfl | rfl <;> simp [run, checks, h]
 
 example : (0 : Nat) < 3 ∧ (0 : Nat) < 4 := by decide
 
@@ -1033,9 +1038,7 @@ theorem T_C20_guards_table_nonempty :
 /-! ### evaluating the regenerated guards on the arguments of a call gives the model's outcome, class included -/
 
 theorem T_C20_guards_translated_faceShape (tol : Rat) (rt : Rat → Rat) (n m : Nat) :
-    run tol (.faceShape n m) =
-      if n == 0 then .reject "IndexError"   -- the guard fires, formatting its message indexes the shape
-      else runStmts (envOf tol rt (.faceShape n m)) (genGuards "faceShape") := by
+    runStmts (envOf tol rt (.faceShape n m)) (genGuards "faceShape") = run tol (.faceShape n m) := by
   rw [show genGuards "faceShape" = G_faceShape by decide +kernel]
   by_cases h : n = 0 <;> simp [G_faceShape, evalC, envOf, run, checks, h]
 
@@ -1073,9 +1076,7 @@ theorem T_C20_guards_translated_pointShape (tol : Rat) (rt : Rat → Rat) (dims 
   simp [G_pointShape, evalC, envOf, run, checks]
 
 theorem T_C20_guards_translated_arrayShape (tol : Rat) (rt : Rat → Rat) (n m : Nat) :
-    run tol (.arrayShape n m) =
-      if n == 0 then .reject "IndexError"   -- `shape[1]` of an empty list
-      else runStmts (envOf tol rt (.arrayShape n m)) (genGuards "arrayShape") := by
+    runStmts (envOf tol rt (.arrayShape n m)) (genGuards "arrayShape") = run tol (.arrayShape n m) := by
   rw [show genGuards "arrayShape" = G_arrayShape by decide +kernel]
   by_cases h : n = 0 <;> simp [G_arrayShape, evalC, evalE, evalOp, envOf, run, checks, h]
 
@@ -1213,16 +1214,12 @@ theorem T_C20_guards_translated_loftedShape (tol : Rat) (rt : Rat → Rat) (n1 n
   cases mids <;> simp [G_loftedShape, evalC, evalE, evalOp, envOf, nm2, run, checks]
 
 theorem T_C20_guards_translated_stackSlice (tol : Rat) (rt : Rat → Rat) (axis idx : Int) (n0 n1 n2 : Nat) :
-    run tol (.stackSlice axis idx n0 n1 n2) =
-      thenBelow (runStmts (envOf tol rt (.stackSlice axis idx n0 n1 n2)) (genGuards "stackSlice"))
-        (checks [(axis == 2 && decide ((n2 : Int) ≤ idx), "IndexError"),
-                 (axis == 0 && decide (0 < n2) && decide (0 < n1) && decide ((n0 : Int) ≤ idx), "IndexError"),
-                 (axis == 1 && decide (0 < n2) && decide ((n1 : Int) ≤ idx), "IndexError")]) := by
+    runStmts (envOf tol rt (.stackSlice axis idx n0 n1 n2)) (genGuards "stackSlice")
+      = run tol (.stackSlice axis idx n0 n1 n2) := by
   rw [show genGuards "stackSlice" = G_stackSlice by decide +kernel]
-  simp [G_stackSlice, evalC, evalE, evalOp, envOf, nm2, run, checks, thenBelow,
+  simp [G_stackSlice, evalC, evalE, evalOp, envOf, run, checks,
     eq_comm (a := (0 : ℤ)), eq_comm (a := (1 : ℤ)), eq_comm (a := (2 : ℤ))]
-  by_cases h0 : axis = 0 <;> by_cases h1 : axis = 1 <;> by_cases h2 : axis = 2 <;> simp_all <;>
-    (by_cases hi : idx < 0 <;> simp_all <;> (have hn : ¬ idx < 0 := by omega) <;> simp [hn])
+  by_cases h0 : axis = 0 <;> by_cases h1 : axis = 1 <;> by_cases h2 : axis = 2 <;> simp_all
 
 theorem T_C20_guards_translated_curveParam (tol : Rat) (rt : Rat → Rat) (p lo hi : Rat) :
     runStmts (envOf tol rt (.curveParam p lo hi)) (genGuards "curveParam") = run tol (.curveParam p lo hi) := by
